@@ -82,4 +82,34 @@ class C03(PropBase):
                 prev = rows
                 rep.nontriv(("iso", f))
 
+        # neighbouring frames that share most of their bits: a frame is attributed by ITS OWN bits, whatever came just before.
+        # Each pair is (frame for A1, the same frame with bits 6..48 changed): for the AP formats the changed frame encodes
+        # another address (same AP field, other CRC); both must get their own row, in the same reader run.
+        for h in range(30 if tier == "quick" else 600):
+            a1 = rng.randrange(1, 1 << 24)
+            kind = rng.choice(["df20", "df21", "df16", "df4", "df5", "df0"])
+            f1 = gen.rand_frame(rng, kind, a1)
+            n = len(f1) * 4
+            v = int(f1, 16)
+            for b in rng.sample(range(6, min(48, n - 24) + 1), rng.randrange(1, 4)):
+                v ^= 1 << (n - b)
+            if kind in ("df20", "df21") and rng.random() < 0.3:
+                v ^= 1 << (n - 5)                 # DF20 <-> DF21
+            f2 = F.hexs(v, n)
+            data2 = v >> 24
+            a2 = (v & 0xFFFFFF) ^ F.crc24(data2, n - 24)
+            if a2 == 0 or a2 == a1:
+                continue
+            u, r = rng.choice(gen.ALL_CFGS)
+            ops = ["reset", gen.cfg_op(use_update=u, relaxed=r)] + gen.seg([f1, f2]) + ["dump"]
+            impl, _, model = run.execute(ops, model=driver_ok)
+            rep.evaluations += 2; rep.traces += 1
+            self.corr(rep, impl, model, f"neighbouring frames {h}", ops)
+            rows = gen.parse_dump(impl)
+            if set(rows) != {a1, a2}:
+                self.fail(rep, f"frames {f1} (address {a1:06X}) and {f2} (address {a2:06X}) in a row: the table holds {sorted('%06X' % k for k in rows)}",
+                          {"ops": ops, "frames": [f1, f2], "addresses": [a1, a2]})
+                return
+            rep.nontriv(("neighbours", f1, f2))
+
 PROP = C03()
